@@ -227,8 +227,113 @@ func c19gfacts() ([]c19gline, error) {
 	if err := c19keyflow(filepath.Dir(dir), emit); err != nil {
 		return nil, err
 	}
-	lines = append(lines, c19gline{"gfact-check", "gate-first=ok callgraph=ok handle-first=ok loop=ok keyflow=ok"})
+	initialOrder, err := c19ctorfacts(filepath.Dir(dir), emit)
+	if err != nil {
+		return nil, err
+	}
+	lines = append(lines, c19gline{"gfact-check", "gate-first=ok callgraph=ok handle-first=ok loop=ok keyflow=ok ctor=ok initial-endpoint=after-key-resolution"})
+	_ = initialOrder // the extracted order travels in the `gfact initial-order` line; the driver echoes it
 	return lines, nil
+}
+
+// c19ctorfacts: every construction path resolves the key before an RPC server of the node can exist.
+// Facts over package node (non-test files):
+//   gfact nodector <func> <yes|no>       a function that builds a Node value (composite literal); yes = it calls
+//                                         SetApiKey before that point (a Node cannot exist with an unresolved key)
+//   gfact rpcstart <callee> <encl> <recv|norecv>   call sites of startRPC/startHTTP; recv = inside a method of *Node
+//                                         (the full RPC endpoint is only opened from a constructed Node)
+//   gfact setapikey <pkg>.<func>          every non-test call site of SetApiKey in the repository
+//   gfact initial-order <before|after|none>   where the constructor calls startInitialRPC relative to SetApiKey
+//                                         (must be after: finding F34; part of `ctorOk`, echoed by the driver)
+func c19ctorfacts(repo string, emit func(string, ...interface{})) (string, error) {
+	fset := token.NewFileSet()
+	dir := filepath.Join(repo, "node")
+	pkgs, err := parser.ParseDir(fset, dir, func(fi os.FileInfo) bool { return !strings.HasSuffix(fi.Name(), "_test.go") }, 0)
+	if err != nil {
+		return "", err
+	}
+	pkg := pkgs["node"]
+	if pkg == nil {
+		return "", fmt.Errorf("package node not found in %s", dir)
+	}
+	var fnames []string
+	for n := range pkg.Files {
+		fnames = append(fnames, n)
+	}
+	sort.Strings(fnames)
+	order := "none"
+	isNodeRecv := func(fd *ast.FuncDecl) bool {
+		if fd.Recv == nil || len(fd.Recv.List) != 1 {
+			return false
+		}
+		t := fd.Recv.List[0].Type
+		if st, ok := t.(*ast.StarExpr); ok {
+			t = st.X
+		}
+		id, ok := t.(*ast.Ident)
+		return ok && id.Name == "Node"
+	}
+	for _, fname := range fnames {
+		for _, d := range pkg.Files[fname].Decls {
+			fd, ok := d.(*ast.FuncDecl)
+			if !ok || fd.Body == nil {
+				continue
+			}
+			var litPos, setPos, initPos token.Pos
+			ast.Inspect(fd.Body, func(n ast.Node) bool {
+				switch x := n.(type) {
+				case *ast.CompositeLit:
+					if id, ok := x.Type.(*ast.Ident); ok && id.Name == "Node" && litPos == token.NoPos {
+						litPos = x.Pos()
+					}
+				case *ast.CallExpr:
+					name := ""
+					switch f := x.Fun.(type) {
+					case *ast.SelectorExpr:
+						name = f.Sel.Name
+					case *ast.Ident:
+						name = f.Name
+					}
+					switch name {
+					case "SetApiKey":
+						if setPos == token.NoPos {
+							setPos = x.Pos()
+						}
+					case "startInitialRPC", "startInitialHTTP":
+						if initPos == token.NoPos {
+							initPos = x.Pos()
+						}
+					case "startRPC", "startHTTP":
+						r := "norecv"
+						if isNodeRecv(fd) {
+							r = "recv"
+						}
+						emit("gfact rpcstart %s %s %s", name, fd.Name.Name, r)
+					}
+				}
+				return true
+			})
+			if litPos != token.NoPos {
+				ok := "no"
+				if setPos != token.NoPos && setPos < litPos {
+					ok = "yes"
+				}
+				emit("gfact nodector %s %s", fd.Name.Name, ok)
+				if initPos != token.NoPos {
+					switch {
+					case setPos == token.NoPos:
+						order = "none"
+					case initPos < setPos:
+						order = "before"
+					default:
+						order = "after"
+					}
+				}
+			}
+		}
+	}
+	emit("gfact initial-order %s", order)
+	return order, nil
 }
 
 // c19keyflow: how the configured key reaches rpc.NewServer.  Every non-test call of NewServer in the
